@@ -284,6 +284,18 @@ pub fn c07(ctx: &Ctx) {
 						rep.nontrivial(key(ops, &case.bytes));
 					}
 					check_entry_points(ops.name, &r, &mut rep, || replay_json("C07", ops, &case.bytes, &[]));
+					// the container's bytes against the element-by-element encoding (the reference
+					// encoder works one element at a time), and decoding against the element-by-element
+					// reference decoder: whatever fast path the crate takes must be indistinguishable
+					if let Err(e) = bytes_conform(ops, &case.val, &case.bytes, &r.encode) {
+						rep.violation(&format!("bulk-vs-elementwise:{}", ops.name), format!("{}: {e} (element-by-element encoding of {})", ops.name, show_val(&case.val)), replay_json("C07", ops, &case.bytes, &[]));
+					}
+					if ops.dec.is_some() && i % 2 == 0 {
+						crate::core_props::model_differential(ops, &r.encode, "valid", &mut rep, "C07");
+						let (m, kind) = mutate(&case.bytes, &case.marks, &case.bytes, &mut rng);
+						crate::core_props::model_differential(ops, &m, kind, &mut rep, "C07");
+						rep.count("elementwise_decode_differentials");
+					}
 					if rep.want_sample() && r.encode.len() >= 2 {
 						rep.sample(sample_json(ops, "entry-points", &r.encode, &format!("{} Output::write calls, {} push_byte calls, {} io::Write calls", r.to_dyn.writes, r.to_dyn.pushes, r.io_calls)));
 					}
